@@ -7,9 +7,8 @@ Local Open Scope string_scope.
 
 Example tie_C11_derivative_integral :
   thr_gradient__derivative_integral =
-    [("np.abs(dE * dt) < 1e-07", (944473296573929, -73)%Z); ("np.abs(EdE * dt) < 1e-07", (944473296573929, -73)%Z);
-     ("np.abs(EdEdE * dt) < 1e-07", (944473296573929, -73)%Z)]
-  /\ (di_thr_dE, di_thr_EdE, di_thr_EdEdE) = ((944473296573929, -73)%Z, (944473296573929, -73)%Z, (944473296573929, -73)%Z)
+    [("np.abs(dE * dt) < 1e-07", (944473296573929, -73)%Z); ("np.abs(EdE * dt) < 0.01", (5764607523034235, -59)%Z)]
+  /\ (di_thr_dE, di_thr_series) = ((944473296573929, -73)%Z, (5764607523034235, -59)%Z)
   /\ Src.h_gradient__derivative_integral = Expected.h_gradient__derivative_integral
   /\ Src.h_util_cexp = Expected.h_util_cexp.
 Proof. repeat split; reflexivity. Qed.
